@@ -311,6 +311,7 @@ func (fc *FuncCtx) storeLoc(l *Loc, st *State, v string) {
 			nv = rebuildPath(fmt.Sprintf("(select (select %s %s) %s)", h, l.ref, l.idx), l.path, v)
 		}
 		st.set(l.heap, fmt.Sprintf("(store %s %s (store (select %s %s) %s %s))", h, l.ref, h, l.ref, l.idx, nv))
+		fc.elemFrame(l.heap, h, st.get(l.heap), l.ref)
 		if l.sl != "" {
 			// the same update in the elem_X vocabulary (frame for the other elements of this slice)
 			ef := e.elemFn(arrayElemSort(arrayElemSort(e.heapSort(l.heap))))
@@ -363,4 +364,12 @@ func (fc *FuncCtx) fieldOf(l *Loc, info *structInfo, i int) *Loc {
 	n.path = append(append([]pathStep{}, l.path...), pathStep{info, i})
 	n.gt = ft
 	return &n
+}
+
+// elemFrame: after array `ref` of an element heap changed (old -> new), every slice
+// backed by another array reads the same elements (in the elem_X vocabulary).
+func (fc *FuncCtx) elemFrame(heap, old, new, ref string) {
+	es := arrayElemSort(arrayElemSort(fc.eng.heapSort(heap)))
+	ef := fc.eng.elemFn(es)
+	fc.q.assume(fmt.Sprintf("(forall ((s Slice) (k Int)) (! (=> (not (= (s-arr s) %s)) (= (%s %s s k) (%s %s s k))) :pattern ((%s %s s k))))", ref, ef, new, ef, old, ef, new))
 }
